@@ -95,6 +95,22 @@ type World struct {
 	gen  int
 	// Yields: lock, unlock and pool operations of the gateway are scheduling points in this run
 	Yields bool
+	// AuthEntropy: behaviour of the secure random source as the authentication helper sees it:
+	// "" (healthy), "fail-at-start", "short-reads"
+	AuthEntropy string
+}
+
+// origRand is the process's real random source; every world starts with it in place.
+var origRand = crand.Reader
+
+// EntropyDown makes the secure random source fail (down=true) or work again.
+func (w *World) EntropyDown(down bool) {
+	if down {
+		crand.Reader = failingReader{}
+		w.S.Count("fault.entropy.unavailable_during_request")
+	} else {
+		crand.Reader = origRand
+	}
 }
 
 // NewWorld must be called inside the bubble, on the scheduler goroutine.
@@ -108,6 +124,7 @@ func NewWorld(t *sim.Tape, dir string) *World {
 		// returns before taking it
 		log.SetOutput(io.Discard)
 	}
+	crand.Reader = origRand
 	simhook.Simulated.Store(true)
 	simhook.Gen.Add(1)
 	simhook.ResetAll()
